@@ -608,9 +608,9 @@ func checkC07NoScriptOnError(p *Prog, r *Report, ru *Rule, sh *ssa.Function) {
 			return
 		}
 		switch {
-		case nil != c.Common().StaticCallee() && "readTemplate" == c.Common().StaticCallee().Name():
+		case nil != c.Common().StaticCallee() && c.Common().StaticCallee() == p.Func(hsrvPkg, "Server", "readTemplate"):
 			gates = append(gates, gate{"template", extractOf(c, 1)})
-		case nil != c.Common().StaticCallee() && "c2URL" == c.Common().StaticCallee().Name():
+		case nil != c.Common().StaticCallee() && c.Common().StaticCallee() == p.Func(hsrvPkg, "Server", "c2URL"):
 			gates = append(gates, gate{"callback address", extractOf(c, 1)})
 		case "(*text/template.Template).Execute" == calleeName(c.Common()):
 			gates = append(gates, gate{"template execution", c})
